@@ -9,7 +9,7 @@ Ghost state (never assigned by real code):
   Operation.g_culprit  for a SKIPPED operation: a FAILED transitive dependency (witness)
   Operation.g_finished_ok   finish_execution returned normally for this operation
 
-`back(f, i)` is the Skolem function of "edges are symmetric": _deps_of(f)[i] lists f at position back(f, i)
+`select(f.g_back, i)` is the Skolem function of "edges are symmetric": _deps_of(f)[i] lists f at position select(f.g_back, i)
 of its _exe_deps.  `cnt(m, n)` = #{j < n | m[j]} (recursive definition; its four lemmas are proved by
 induction on n, see LOGIC.lemmas).
 """
@@ -27,7 +27,7 @@ CLASSES = [
                       "_exe_deps": "List[Operation]#edeps", "_waiting_on": "int", "_deps_of": "List[Operation]#depsof"},
               virtual={"parallelizable": "bool", "main_task": "Opt[TaskType]", "associated_task": "Opt[TaskType]"},
               ghost={"g_inplan": "bool", "g_phase": "int", "g_marks": "Arr[int,bool]", "g_culprit": "Opt[Operation]",
-                     "g_finished_ok": "bool", "g_started": "bool"}),
+                     "g_finished_ok": "bool", "g_started": "bool", "g_back": "Arr[int,int]"}),
     ClassDecl("OutputHandler", file="utils/output_handler.py"),
     ClassDecl("OperationExecutionHandle", file="execution/handle.py",
               fields={"pid": "Opt[int]", "stdout": "Opt[OutputHandler]", "stderr": "Opt[OutputHandler]",
@@ -48,8 +48,7 @@ CLASSES = [
 ]
 
 LOGIC = Logic(
-    funcs={"back": (["Operation", "int"], "int"),
-           "ExitStatus": (["int"], "int"),
+    funcs={"ExitStatus": (["int"], "int"),
            "Pgid": (["int"], "int"),            # process group of a pid (A-OS: own group, start_new_session=True)
            "Gone": (["int"], "bool")},          # the process (group) no longer exists
     defs={"cnt": ([("m", "Arr[int,bool]"), ("n", "int")], "int",
@@ -77,8 +76,8 @@ LOGIC = Logic(
         # symmetric, duplicate-free edges around operation f (established by the planner, C02)
         "edges_wf(f)":
             "forall(i, 'int', implies(0 <= i and i < seq_len(f._deps_of),"
-            "   select(f._deps_of, i).g_inplan and 0 <= back(f, i) and back(f, i) < seq_len(select(f._deps_of, i)._exe_deps)"
-            "   and select(select(f._deps_of, i)._exe_deps, back(f, i)) == f))"
+            "   select(f._deps_of, i).g_inplan and 0 <= select(f.g_back, i) and select(f.g_back, i) < seq_len(select(f._deps_of, i)._exe_deps)"
+            "   and select(select(f._deps_of, i)._exe_deps, select(f.g_back, i)) == f))"
             " and forall(i, 'int', forall(k, 'int', implies(0 <= i and i < k and k < seq_len(f._deps_of),"
             "   select(f._deps_of, i) != select(f._deps_of, k))))"
             " and forall(j, 'int', implies(0 <= j and j < seq_len(f._exe_deps), select(f._exe_deps, j).g_inplan))",
@@ -158,12 +157,12 @@ CONTRACTS = [
              requires=[C("symmetric_edges", "edges_wf(self)"),
                        C("dependents_count_correctly", "forall(i, 'int', implies(0 <= i and i < seq_len(self._deps_of), marks_ok(select(self._deps_of, i))))"),
                        C("this_completion_not_counted_yet", "forall(i, 'int', implies(0 <= i and i < seq_len(self._deps_of),"
-                                                            " not select(select(self._deps_of, i).g_marks, back(self, i))))")],
+                                                            " not select(select(self._deps_of, i).g_marks, select(self.g_back, i))))")],
              modifies=["Operation._waiting_on", "Operation.g_marks"],
              ensures=[C("each_dependent_decremented_once",
                         "forall(i, 'int', implies(0 <= i and i < seq_len(self._deps_of),"
                         "   select(self._deps_of, i)._waiting_on == old(select(self._deps_of, i)._waiting_on) - 1 and"
-                        "   select(self._deps_of, i).g_marks == store(old(select(self._deps_of, i).g_marks), back(self, i), True)))"),
+                        "   select(self._deps_of, i).g_marks == store(old(select(self._deps_of, i).g_marks), select(self.g_back, i), True)))"),
                       C("nothing_else_touched",
                         "forall(o, 'Operation', implies(forall(i, 'int', implies(0 <= i and i < seq_len(self._deps_of), select(self._deps_of, i) != o)),"
                         "   o._waiting_on == old(o._waiting_on) and o.g_marks == old(o.g_marks)))")],
@@ -172,7 +171,7 @@ CONTRACTS = [
                             invariant=[
                                 C("done_prefix", "forall(k, 'int', implies(0 <= k and k < i,"
                                                  " select(self._deps_of, k)._waiting_on == old(select(self._deps_of, k)._waiting_on) - 1 and"
-                                                 " select(self._deps_of, k).g_marks == store(old(select(self._deps_of, k).g_marks), back(self, k), True)))"),
+                                                 " select(self._deps_of, k).g_marks == store(old(select(self._deps_of, k).g_marks), select(self.g_back, k), True)))"),
                                 C("untouched_suffix", "forall(k, 'int', implies(i <= k and k < seq_len(self._deps_of),"
                                                       " select(self._deps_of, k)._waiting_on == old(select(self._deps_of, k)._waiting_on) and"
                                                       " select(self._deps_of, k).g_marks == old(select(self._deps_of, k).g_marks)))"),
@@ -181,7 +180,7 @@ CONTRACTS = [
                             ])},
              ghost=[Ghost("use_lemma('cnt_full', dep_of.g_marks, seq_len(dep_of._exe_deps))\nuse_lemma('cnt_range', dep_of.g_marks, seq_len(dep_of._exe_deps))",
                           before="dep_of._decrement_waiting_on()"),
-                    Ghost("dep_of.g_marks = store(dep_of.g_marks, back(self, i), True)", after="dep_of._decrement_waiting_on()")],
+                    Ghost("dep_of.g_marks = store(dep_of.g_marks, select(self.g_back, i), True)", after="dep_of._decrement_waiting_on()")],
              inline=["_decrement_waiting_on"]),
 
     # ------------------------------------------------------------------ assumed (A-OS)
@@ -254,7 +253,7 @@ CONTRACTS = [
                             ])},
              ghost=[Ghost("finished_op.g_phase = 3\n"
                           "use(forall(k, 'int', implies(0 <= k and k < seq_len(finished_op._deps_of),"
-                          " lemma('cnt_store', old(select(finished_op._deps_of, k).g_marks), back(finished_op, k), seq_len(select(finished_op._deps_of, k)._exe_deps)))))\n"
+                          " lemma('cnt_store', old(select(finished_op._deps_of, k).g_marks), select(finished_op.g_back, k), seq_len(select(finished_op._deps_of, k)._exe_deps)))))\n"
                           "use(forall(k, 'int', implies(0 <= k and k < seq_len(finished_op._deps_of),"
                           " lemma('cnt_range', select(finished_op._deps_of, k).g_marks, seq_len(select(finished_op._deps_of, k)._exe_deps)))))",
                           after="finished_op.decrement_deps_of_waiting_on()"),
